@@ -70,10 +70,15 @@ Definition split_first (d : N) (s : str) : str * str :=
   | [] => (a, [])
   end.
 
-Definition urlsplit (v6ok : str -> bool) (url0 : str) : split_res :=
+(* urlsplit(url, scheme=dflt): scheme = scheme.strip(C0 or space) with TAB/CR/LF deleted is the default *)
+Definition clean_scheme (s : str) : str :=
+  filter (fun c => negb (unsafe_byte c)) (strip_by c0_or_space s).
+
+Definition urlsplit_with (v6ok : str -> bool) (dflt : str) (url0 : str) : split_res :=
   let url1 := drop_while c0_or_space url0 in
   let url2 := filter (fun c => negb (unsafe_byte c)) url1 in
-  let (scheme, url3) := split_scheme url2 in
+  let (found, url3) := split_scheme url2 in
+  let scheme := if is_empty found then clean_scheme dflt else found in
   let '(netloc, url4) :=
     match url3 with
     | 47 :: 47 :: r => span_until is_delim r
@@ -84,3 +89,5 @@ Definition urlsplit (v6ok : str -> bool) (url0 : str) : split_res :=
     let (url5, fragment) := split_first 35 url4 in
     let (url6, query) := split_first 63 url5 in
     if forallb is_ascii netloc then SOk scheme netloc url6 query fragment else SUnsupported.
+
+Definition urlsplit (v6ok : str -> bool) (url0 : str) : split_res := urlsplit_with v6ok [] url0.
